@@ -43,14 +43,21 @@ def impl_cfg(cfg):
     out = []
     for th in cfg:
         a, b, i = th["key"]
-        ops = [[o[0], pay(o[1])] if o[0] == "send" else [o[0]] for o in th["ops"]]
+        ops = [[o[0], pay(o[1])] if o[0] == "send" else list(o) for o in th["ops"]]
         out.append(dict(key=[f"n{a}", f"n{b}", i], cb=th["cb"], ops=ops))
     return out
 
 
+def model_cfg(cfg):
+    """The configuration as the model sees it: `setcb` (the use_callbacks setter on an existing socket) touches no
+    shared state in the unchanged code — the hub reads socket.use_callbacks only inside connect — so the op is
+    erased (the generator places it only after the thread's last connect)."""
+    return [dict(th, ops=[o for o in th["ops"] if o[0] != "setcb"]) for th in cfg]
+
+
 def cfg_line(cfg, variant="fixed"):
     parts = [f"CFG {variant}"]
-    for th in cfg:
+    for th in model_cfg(cfg):
         a, b, i = th["key"]
         ops = []
         for o in th["ops"]:
@@ -66,7 +73,7 @@ def rkey(k):
 def gen_cfg(rng, family=None):
     """Small configurations: 2-4 threads, <= 4 ops each between connect and disconnect."""
     family = family or rng.choice(["pair", "pair", "pair", "paircb", "paircb", "twosock", "threenode",
-                                   "reinc", "reinc", "lone", "shared", "reconn", "reconn", "reconn"])
+                                   "reinc", "reinc", "lone", "shared", "reconn", "reconn", "reconn", "switch", "switch", "switch"])
     mid = [0]
 
     def fresh():
@@ -122,6 +129,22 @@ def gen_cfg(rng, family=None):
             cfg = [rcv, dict(key=[0, 1, 0], cb=False, ops=first + second)]
         else:
             cfg = [rcv, dict(key=[0, 1, 0], cb=False, ops=first), dict(key=[0, 1, 0], cb=False, ops=second)]
+    elif family == "switch":
+        # the receiver flips use_callbacks on its CONNECTED socket (possibly with messages pending) while the
+        # peer keeps sending; before / after the switch it may receive explicitly
+        cb0 = rng.random() < 0.3
+        nsend = rng.randint(2, 4)
+        rops = [["connect"]]
+        rops += [["recvnb"] if rng.random() < 0.5 else ["recv"] for _ in range(rng.choice([0, 0, 1]))] if not cb0 else []
+        rops.append(["setcb", not cb0])
+        if rng.random() < 0.35:
+            rops += [["recvnb"] for _ in range(rng.randint(1, 2))]
+        if rng.random() < 0.25:
+            rops.append(["setcb", cb0])
+            if cb0 is False and rng.random() < 0.5:
+                rops.append(["recvnb"])
+        cfg = [dict(key=[1, 0, 0], cb=cb0, ops=rops),
+               dict(key=[0, 1, 0], cb=False, ops=[["connect"]] + [["send", fresh()] for _ in range(nsend)])]
     elif family == "lone":
         cfg = pair(0, False, False, budget=2) + [dict(key=[2, 0, 0], cb=False, ops=script(1, 0, 0, False))]
     else:  # shared: two threads use endpoints with one and the same key (two receivers on one queue)
@@ -138,12 +161,14 @@ def canon_impl(run, cfg):
     for t, th in enumerate(o["threads"]):
         res = []
         done = 0
-        for r in th["res"]:
+        for j, r in enumerate(th["res"]):
             if r == "blocked":
                 continue
+            if cfg[t]["ops"][run.results[t][j][0]][0] == "setcb":
+                continue        # erased in the model
             done += 1
             res.append(["msg", unpay(r[1])] if isinstance(r, list) else r)
-        ths.append(dict(res=res, left=len(cfg[t]["ops"]) - done, store=[unpay(x) for x in th["store"]], lost=th["lost"]))
+        ths.append(dict(res=res, left=len([o for o in cfg[t]["ops"] if o[0] != "setcb"]) - done, store=[unpay(x) for x in th["store"]], lost=th["lost"]))
 
     def k3(k):
         return [int(k[0][1:]), int(k[1][1:]), k[2]]
@@ -247,14 +272,21 @@ def oracle(run, cfg):
         r, s = rts[0], sts[0]
         sends = [(cfg[s]["ops"][i][1], st, en) for (i, x, st, en, *_r) in res[s] if cfg[s]["ops"][i][0] == "send" and x == "ok"]
         sent = [m for m, _, _ in sends]
-        has_recv_ops = any(o[0] in ("recv", "recvnb") for o in cfg[r]["ops"])
+        # what the receiver observed, in observation order: callback deliveries (when the callback ran) merged
+        # with explicit receives (when the message was popped), across any switch of use_callbacks
+        log = run.log
+        obs = [(idx, unpay(m)) for (idx, tid, m) in run.cb_events if tid == r]
+        for z in res[r]:
+            if isinstance(z[1], list) and len(z) == 6:
+                pops = [idx for idx in range(max(z[4], 0), z[5]) if log[idx][0] == r and log[idx][1].startswith("q_pop")]
+                obs.append((pops[-1] if pops else z[5], unpay(z[1][1])))
+        obs.sort()
+        got = [m for _, m in obs]
         polled = [unpay(x[1]) for (_i, x, *_r) in res[r] if isinstance(x, list)]
         stored = [unpay(x) for x in run.storage[r]]
-        if cfg[r]["cb"] and has_recv_ops and stored and polled:
-            continue      # callback deliveries and explicit polls interleave: no single received sequence to observe
-        got = stored if (cfg[r]["cb"] and not polled) else polled
         if got != sent[:len(got)]:
-            bad.append(("fifo", f"receiver {list(k)} (thread {r}) got {got}, sender (thread {s}) sent {sent}"))
+            bad.append(("fifo", f"receiver {list(k)} (thread {r}) observed {got} (callback {stored}, explicit recv {polled}), "
+                                f"sender (thread {s}) sent {sent}"))
             continue
         left = final_q.get(k, [])
         # (only when no operation can be in flight: the run ended by completion or quiescence)
@@ -265,7 +297,7 @@ def oracle(run, cfg):
         for (i, x, st, en, *_r) in res[r]:
             if isinstance(x, list):
                 nrecv += 1
-            elif x == "empty" and not cfg[r]["cb"]:
+            elif x == "empty" and not cfg[r]["cb"] and not stored:
                 avail = sum(1 for (_m, _s, e2) in sends if e2 < st)
                 if avail > nrecv:
                     bad.append(("nb-empty", f"receiver {list(k)} op {i} reported empty although {avail} messages "
@@ -276,12 +308,21 @@ def oracle(run, cfg):
             kind = cfg[r]["ops"][i][0]
             if kind == "recv" and left:
                 bad.append(("blocked", f"thread {r} blocked in recv with {left} queued"))
+    # an endpoint whose receive callback is registered in the hub at the end (it is listening in callback mode) and
+    # that never disconnected must have nothing left in its queue (also after a switch of use_callbacks)
+    if run.end_reason in ("done", "quiescent"):
+        registered = {(int(k[0][1:]), int(k[1][1:]), k[2]) for k in dict.keys(run.hub._recv_callbacks)}
+        for k, rts in by_key.items():
+            if len(rts) == 1 and k in registered and final_q.get(k) \
+                    and not any(o[0] == "disconnect" for o in cfg[rts[0]]["ops"]):
+                bad.append(("stranded", f"endpoint {list(k)} (thread {rts[0]}) is registered for callbacks, its callback got "
+                                        f"{[unpay(x) for x in run.storage[rts[0]]]} but {final_q[k]} sit undelivered in the hub queue"))
     # a callback receiver that never disconnects must be handed every message: nothing may sit in its queue
     for k, rts in by_key.items():
         if len(rts) != 1:
             continue
         th = cfg[rts[0]]
-        if th["cb"] and not any(o[0] in ("recv", "recvnb", "disconnect") for o in th["ops"]) and final_q.get(k):
+        if th["cb"] and not any(o[0] in ("recv", "recvnb", "disconnect", "setcb") for o in th["ops"]) and final_q.get(k):
             bad.append(("stranded", f"callback receiver {list(k)} (thread {rts[0]}) never disconnected, its callback got "
                                     f"{[unpay(x) for x in run.storage[rts[0]]]} but {final_q[k]} sit undelivered in the hub queue"))
     for t, th in enumerate(cfg):
